@@ -93,3 +93,27 @@ def run(F, ctx):
             ctx.violation("%s:R-C11-a:%s+%s" % (n, tag, reader),
                           "%s appends the %s delta to the log while recovery %s: a history with a repeated insert or a delete of an absent tuple is recovered differently from the state that was served" % (n.split("::")[-1], tag, "sums diffs and keeps positive multiplicities" if reader == "sum-diffs" else "replays updates with set semantics"), c.where())
     ctx.end_rule()
+
+    # ---- b: what rewrites the log must keep what the reader needs
+    ctx.rule("R-C11-b", "log-rewriting steps (compaction) preserve the per-time history that a set-replay recovery needs", floor=1)
+    PB = "<storage::persist::FilePersist as storage::persist::PersistBackend>::"
+    comp = F.fn(PB + "compact")
+    merges = []
+    for c in comp.normal_calls():
+        r = c.resolved
+        if r in F.bodies and r.startswith("storage::persist::consolidate::"):
+            g = F.fn(r)
+            flds = {fld for (bb, kind, adt, fld, line, pl) in g.field_accesses() if adt.endswith("batch::Update")}
+            for ch in F.children(r):
+                flds |= {fld for (bb, kind, adt, fld, line, pl) in F.fn(ch).field_accesses() if adt.endswith("batch::Update")}
+            writes_diff = any(adt.endswith("batch::Update") and fld == "diff" and kind in ("w", "wb", "wp") for (bb, kind, adt, fld, line, pl) in g.field_accesses())
+            if writes_diff:
+                merges.append((c, r, "time" in flds))
+    if not merges:
+        raise CheckError("compact: no consolidation step found")
+    for (c, r, keeps_time) in merges:
+        ok = keeps_time or reader != "set-replay"
+        ctx.site("compact merges updates with %s (keyed on time: %s)" % (r.split("::")[-1], keeps_time), c.where(), ok=ok)
+        if not ok:
+            ctx.violation("%s:R-C11-b:history-collapsed:%s" % (PB + "compact", r.split("::")[-1]), "compaction merges a tuple's updates regardless of their logical time (%s) while recovery replays the log in time order with set semantics: after insert t; insert t; delete t; compact; restart the tuple reappears" % r.split("::")[-1], c.where())
+    ctx.end_rule()
